@@ -159,7 +159,9 @@ def run_case(case):
         specs.append(spec)
     if case.get("pre_run"):
         specs.insert(0, {"timeline": [[0.3, ["data", rm.encode_frame(1, rm.TEXT, b"earlier")]]], "default_pong": 0.01})
-    if case.get("full_close"):
+    if case.get("full_close") and not ext:
+        # (not with an external loop: a reset, like every error other than end of stream, escapes into the third-party
+        #  code there - the same don't-care as for the "rst" kind, see ASSUMPTIONS)
         for sp in specs:
             if isinstance(sp, dict):
                 sp["full_close"] = True  # the server's end of stream is a close() of its socket (later client writes meet a reset)
